@@ -41,9 +41,14 @@ def main():
     checks = checks or [prop]
     dst = os.path.join(V, 'seeded', tag)
     os.makedirs(dst, exist_ok=True)
-    for f in os.listdir(src):
-        if os.path.isfile(os.path.join(src, f)):
-            shutil.copy(os.path.join(src, f), dst)
+    nested = []  # demo files delivered with their path inside the repository
+    for root, _, fs in os.walk(src):
+        for f in fs:
+            rel = os.path.relpath(os.path.join(root, f), src)
+            os.makedirs(os.path.dirname(os.path.join(dst, rel)) or dst, exist_ok=True)
+            shutil.copy(os.path.join(root, f), os.path.join(dst, rel))
+            if os.sep in rel and rel.endswith('.go'):
+                nested.append(rel)
     patch = os.path.join(dst, 'patch.diff')
     demos = [f for f in os.listdir(dst) if f.endswith('_test.go') or (f.endswith('.go') and f != 'patch.diff')]
     wt = '/tmp/seedeval-' + tag
@@ -77,8 +82,13 @@ def main():
         res['demo_dir'] = demo_dir
         for d in demos:
             shutil.copy(os.path.join(dst, d), os.path.join(wt, demo_dir, d))
+        pkgs = ['./' + demo_dir] if demos else []
+        for rel in nested:
+            shutil.copy(os.path.join(dst, rel), os.path.join(wt, rel))
+            if './' + os.path.dirname(rel) not in pkgs:
+                pkgs.append('./' + os.path.dirname(rel))
         runpat = meta.get('demo_run', '')
-        democmd = 'go test -vet=off -count=1 %s ./%s' % (('-run ' + runpat) if runpat else '', demo_dir)
+        democmd = 'go test -vet=off -count=1 %s %s' % (('-run ' + runpat) if runpat else '', ' '.join(pkgs))
         rc1, out1 = sh(democmd, cwd=wt)
         res['demo_fails_with_patch'] = rc1 != 0
         ran.append(democmd + ' (with patch) -> %s' % ('fails' if rc1 != 0 else 'PASSES'))
